@@ -310,6 +310,9 @@ def write_replay(pid, seed, n, kind, area, lines, header):
     return os.path.relpath(path, ROOT)
 
 
+_RUNLOCK = None
+
+
 def main():
     if len(sys.argv) < 3:
         print("usage: ./check <id> quick|thorough | ./check <id> --replay <file>")
@@ -321,6 +324,10 @@ def main():
     cfg = PROPS[pid]
     work = os.path.join(ROOT, "work", pid)
     os.makedirs(work, exist_ok=True)
+    # one run per property at a time: two runs of one property share this work directory (a second run waits)
+    global _RUNLOCK
+    _RUNLOCK = open(os.path.join(work, ".runlock"), "w")
+    fcntl.flock(_RUNLOCK, fcntl.LOCK_EX)
 
     if sys.argv[2] == "--replay":
         path = sys.argv[3]
